@@ -313,6 +313,21 @@ def check(tier):
     good = lst is not None and match_expr('[info(V_m, number) for V_m in get_number_modules() if V_m.is_valid(number)]', lst) is not None
     rep.check(good, 'C18.listing', FILE, 'application', src(lst)[:160] if lst is not None else 'results = [...]', getattr(lst, 'lineno', app.lineno),
               'the result list is not exactly the modules of get_number_modules() whose is_valid() accepts the number')
+    # ... and it is computed whenever a number was submitted: the only condition around it is the presence of the parameter
+    if lst is not None:
+        par18 = {}
+        for x in ast.walk(app):
+            for c_ in ast.iter_child_nodes(x):
+                par18[c_] = x
+        q = lst
+        while q in par18:
+            q = par18[q]
+            if isinstance(q, ast.If):
+                rep.check(src(q.test) == "'number' in parameters", 'C18.listing', FILE, 'application', src(q.test)[:100], q.lineno,
+                          'the scan of the formats is skipped under the condition `%s`: for such requests the page lists nothing although is_valid() of some '
+                          'format accepts the number' % src(q.test)[:60])
+            elif isinstance(q, (ast.For, ast.While, ast.Try, ast.With)):
+                rep.fail('C18.listing', FILE, 'application', type(q).__name__, q.lineno, 'the scan of the formats sits inside a %s statement' % type(q).__name__)
     # no other writer of results than the initial [] and the list comprehension
     for n in ast.walk(app):
         if isinstance(n, ast.Assign) and src(n.targets[0]) == 'results' and n.value is not lst:
